@@ -31,6 +31,11 @@ CHECKS["C12"] = dict(
   text="Every non-nil return of ExtractMatches lies on all paths behind each rejection test of the statement with exactly the stated relation (count != 0, count <= MaxTxnCount, #hashes <= count, #bits >= #hashes; after the traversal: latch clear, ceil(bitsUsed/8) = ceil(#bits/8), hashesUsed = #hashes); in the traversal both cursor reads are proved in range on every path, their out-of-range edges set the latch and return, equal children set the latch; the latch is only ever stored true after construction. Field roles are discovered from the code (constructor, cursor reads), not named. Value-level root equality is not decided.",
   note="Trusted: HashMerkleBranches, Hash.IsEqual. Assumes 64-bit or 32-bit int as configured; len() of the slices fits the uint32 conversions the code performs (the conversions are treated as opaque atoms, so no wrap is assumed for the proof).",
   ref="§3 C12, §2.2, §2.3")
+CHECKS["C08"] = dict(
+  technique="obligation enumeration over go/ssa + linear-arithmetic bounds prover (dominating branch facts, merge-point case split, phi-web induction, available-loads aliasing, inter-procedural return facts and constant-parameter facts), loop classification, recursion descent, allocation-size provenance",
+  text="For all 73 in-repo functions reachable from the statement's parsing entry points, on every path: each index / slice / division / signed shift / fixed-width read is proved in range or non-zero (5 named exceptions, each with a premise the prover still checks); each single-result type assertion is dominated by a test of the same value; each make() size is a constant or bounded by input lengths (never by a decoded count); each loop is a range loop, a counted or decreasing loop with an invariant bound, or consumes input each iteration; each recursive cycle descends. An unproved obligation is reported, never assumed. Panics inside third-party callees, nil pointers in hand-built messages, stack depth and the exact time bound are not decided.",
+  note="Trusted: out-of-repo callees total except the listed preconditioned ones; sort.Slice callback indices in range; len() < 2^50; int arithmetic on lengths exact; bloom filter within the wire size limit for the one no-wrap premise.",
+  ref="§3 C08, §2.3")
 
 NA_REASON = {
  "C17": "Every clause with content is a statement about IEEE-754 rounding of f*1e8, a/10^k and shortest-decimal printing over 2.1e15 integers; no fact about the shape of amount.go implies or refutes it, and the two shape-level clauses (NaN/Inf rejected, unit labels) are already pinned by the suite (DESIGN.md §4).",
